@@ -579,3 +579,92 @@ Proof.
   - intros pre cm post -> Hpre Hcm. now apply strict_status_split.
   - apply strict_status_through.
 Qed.
+
+(* ====================================================================================
+   `hook::run --config` prints the configuration: the bytes on stdout. *)
+
+Definition runC_i (i : inputC) : obsC :=
+  runC (ib_args (ic_in i)) (ib_defined (ic_in i)) (ib_bodies (ic_in i)) (ib_ctxs (ic_in i)) (ic_text i).
+
+(* --config, __config__ defined: the stdout of the script is the text of __config__, for
+   every byte string; __config__ ran once, with no context selected, and its strict-mode
+   status is the status of the run *)
+Lemma config_verbatim args defined bodies cs (text : bytes) :
+  is_config args = true -> In config_name defined ->
+  let o := runC args defined bodies cs text in
+  oc_stdout o = text /\
+  o_trace (ob_obs (oc_run o)) = [config_entry] /\
+  o_status (ob_obs (oc_run o)) = strict_status (bodies config_name 0%N).
+Proof.
+  intros Hc Hin. cbv zeta. unfold runC. cbn [oc_stdout oc_run].
+  rewrite (proj1 (runB_run args defined bodies cs)).
+  apply mem_true in Hin. unfold stdout_of, run. rewrite Hc, Hin.
+  cbn [o_trace o_status]. repeat split.
+Qed.
+
+(* what is on stdout does not depend on what __config__ does after writing, on the
+   contexts or on the other handlers *)
+Lemma stdout_of_text args defined bodies cs text :
+  oc_stdout (runC args defined bodies cs text) =
+  if is_config args && mem config_name defined then text else [].
+Proof. unfold runC, stdout_of. cbn [oc_stdout]. destruct (is_config args), (mem config_name defined); reflexivity. Qed.
+
+Lemma config_clause_holds i : config_clause i (runC_i i) = true.
+Proof.
+  unfold config_clause, runC_i.
+  destruct (is_config (ib_args (ic_in i))) eqn:Hc; [|reflexivity].
+  destruct (mem config_name (ib_defined (ic_in i))) eqn:Hm; [|reflexivity].
+  cbn [andb].
+  destruct (config_verbatim _ _ (ib_bodies (ic_in i)) (ib_ctxs (ic_in i)) (ic_text i) Hc (proj1 (mem_true _ _) Hm))
+    as [Hs [_ Hst]].
+  rewrite Hs, Hst.
+  destruct (N.eqb (strict_status (ib_bodies (ic_in i) config_name 0%N)) 0) eqn:E.
+  - apply bytes_eqb_refl'.
+  - unfold nonzero. now rewrite E.
+Qed.
+
+Lemma config_meets_spec i :
+  in_domain (to_input (ic_in i)) = true -> T (to_input (ic_in i)) = false -> PC i (runC_i i) = true.
+Proof.
+  intros Hd HT. unfold PC. rewrite config_clause_holds, Bool.andb_true_r.
+  exact (strict_meets_spec_partial (ic_in i) Hd HT).
+Qed.
+
+(* --config needs no hypothesis about the contexts at all *)
+Lemma config_meets_spec_config i : is_config (ib_args (ic_in i)) = true -> PC i (runC_i i) = true.
+Proof.
+  intros Hc. unfold PC. rewrite config_clause_holds, Bool.andb_true_r.
+  unfold runC_i, runC. cbn [oc_run]. unfold PB. rewrite (proj1 (runB_run _ _ _ _)).
+  exact (config_mode_P (to_input (ic_in i)) Hc).
+Qed.
+
+(* the predicate accepts NOTHING but the text itself: an observation that passes it for a
+   succeeding __config__ has exactly the bytes of the text on stdout and status 0 *)
+Lemma spec_demands_verbatim i o :
+  is_config (ib_args (ic_in i)) = true -> In config_name (ib_defined (ic_in i)) ->
+  strict_status (ib_bodies (ic_in i) config_name 0%N) = 0%N ->
+  PC i o = true ->
+  oc_stdout o = ic_text i /\ o_status (ob_obs (oc_run o)) = 0%N.
+Proof.
+  intros Hc Hin Hst HP. apply mem_true in Hin.
+  unfold PC in HP. apply Bool.andb_true_iff in HP. destruct HP as [HB HC].
+  unfold config_clause in HC. rewrite Hc, Hin, Hst in HC. cbn [andb N.eqb] in HC.
+  split; [now apply bytes_eqb_eq|].
+  unfold PB, P in HB. cbn [to_input i_args i_defined i_results] in HB. rewrite Hc, Hin in HB.
+  unfold results_of_bodies in HB. rewrite Hst in HB. cbn [andb N.eqb] in HB.
+  apply Bool.andb_true_iff in HB. destruct HB as [_ HB].
+  apply Bool.andb_true_iff in HB. destruct HB as [_ HB]. now apply N.eqb_eq.
+Qed.
+
+(* ... and for a failing __config__ only a failing run *)
+Lemma spec_demands_failure i o :
+  is_config (ib_args (ic_in i)) = true -> In config_name (ib_defined (ic_in i)) ->
+  strict_status (ib_bodies (ic_in i) config_name 0%N) <> 0%N ->
+  PC i o = true -> o_status (ob_obs (oc_run o)) <> 0%N.
+Proof.
+  intros Hc Hin Hst HP. apply mem_true in Hin.
+  unfold PC in HP. apply Bool.andb_true_iff in HP. destruct HP as [_ HC].
+  unfold config_clause in HC. rewrite Hc, Hin in HC. cbn [andb] in HC.
+  apply N.eqb_neq in Hst. rewrite Hst in HC. unfold nonzero in HC.
+  apply Bool.negb_true_iff in HC. now apply N.eqb_neq.
+Qed.
